@@ -91,6 +91,8 @@ pub fn check(sc: &Scenario, out: &RunOutput) -> OracleResult {
     // model of when the retransmission timer was last (re)started (RFC 6298 5.1/5.3/5.6): an ACK
     // of new data restarts it (or stops it when nothing sent is left un-acked), a transmission
     // starts it only when it is not running, an expiry restarts it
+    let mut max_ack: Option<u16> = None;
+    let mut reader_dropped = false;
     let mut rec_point: Option<u16> = None;
     let mut leave_due: Option<T> = None;
     let mut recovery_entries = 0u64;
@@ -165,6 +167,9 @@ pub fn check(sc: &Scenario, out: &RunOutput) -> OracleResult {
                 if matches!(a.res, AppRes::Err(_)) && !matches!(a.kind, AppKind::Mismatch { .. }) {
                     app_error = true;
                 }
+                if matches!(a.kind, AppKind::DropHalf) && a.half == crate::hist::Half::R {
+                    reader_dropped = true;
+                }
             }
             X::DelivE(p, d) => {
                 if d.corrupted || p.typ == codec::ST_SYN || p.typ == codec::ST_RESET {
@@ -233,7 +238,19 @@ pub fn check(sc: &Scenario, out: &RunOutput) -> OracleResult {
                     let has_sack = p.sack_bits().is_some();
                     sack_seen |= has_sack;
                     let mut trigger: Option<&'static str> = None;
-                    if p.typ == codec::ST_STATE && first_unacked.is_some() {
+                    // a stale acknowledgement (older than the greatest one received: a reordered
+                    // ACK) is neither a duplicate nor fresh selective evidence; the endpoint's own
+                    // counting starts afresh after it, so does this one (lenient)
+                    let stale = max_ack.is_some_and(|m| seq_diff(p.ack, m) < 0);
+                    if !stale {
+                        max_ack = Some(p.ack);
+                    }
+                    if stale {
+                        plain_dups = 0;
+                        sack_in_row = 0;
+                        // (the next fresh ACK is the new baseline, not yet a duplicate)
+                        last_plain = None;
+                    } else if p.typ == codec::ST_STATE && first_unacked.is_some() {
                         if has_sack {
                             sack_in_row += 1;
                             let sacked_sent = p.sack_bits().unwrap().iter().enumerate().filter(|(k, b)| **b && segs.contains_key(&p.ack.wrapping_add(2).wrapping_add(*k as u16))).count();
@@ -261,7 +278,9 @@ pub fn check(sc: &Scenario, out: &RunOutput) -> OracleResult {
                         }
                         plain_dups = 0;
                     }
-                    last_plain = Some((p.ack, p.wnd));
+                    if !stale {
+                        last_plain = Some((p.ack, p.wnd));
+                    }
                     if let (Some(why), Some(fu)) = (trigger, first_unacked) {
                         fast_triggers += 1;
                         // a size probe that expired was taken back (popped, un-sent): nothing is
@@ -429,7 +448,7 @@ pub fn check(sc: &Scenario, out: &RunOutput) -> OracleResult {
         }
     }
     // (d) when the cap was hit the application sees an error
-    if cap_hit && !app_error && out.t_end > task_over.unwrap_or(0) + 5 * crate::hist::SEC {
+    if cap_hit && !app_error && !reader_dropped && out.t_end > task_over.unwrap_or(0) + 5 * crate::hist::SEC {
         // only if the application still had a call to make: a pending read is always there in
         // this family
         res.violate(P, "cap-hit-without-error", task_over.unwrap_or(0), "the connection gave up after the configured number of retransmissions but no application call failed".into());
